@@ -367,6 +367,17 @@ Theorem product_space_operator_modes_agree :
                 length (snd p (xd (en_col (fst p)))) = fst ri) ->
   forall k, (k < length rans)%nat -> ip_rows rans xd se k = oop_rows rans xd se k.
 Proof. exact rows_agree. Qed.
+(* ... and its side condition holds for every well-formed entry list: denotations of trees map
+   vectors of the domain size to vectors of the range size ([den_length], by induction on the tree) *)
+Theorem product_space_operator_modes_agree_for_trees :
+  forall ro doms rans xd (se : list sent),
+  ro_wf ro -> Forall (ent_ok ro doms rans) se ->
+  (forall j dj, nth_error doms j = Some dj -> length (xd j) = fst dj) ->
+  forall k, (k < length rans)%nat -> ip_rows rans xd se k = oop_rows rans xd se k.
+Proof.
+  intros ro doms rans xd se Hro HF Hx. apply rows_agree. exact (ents_lengths ro doms rans xd se Hro HF Hx).
+Qed.
+Print Assumptions product_space_operator_modes_agree_for_trees.
 (* T1  ComponentProjectionAdjoint(space, i)(x, out=y) under the same proviso *)
 Theorem component_projection_adjoint_partial :
   forall i x (outs : list nat) (sps : list space) (s : @store (option R)) dx spi oi,
